@@ -88,14 +88,10 @@ func (f *Do) Call(s *slip.Scope, args slip.List, depth int) (result slip.Object)
 					if tr.Tag == nil {
 						return tr.Result
 					}
-					if s.Block {
-						return tr
-					}
+					return tr
 				case *GoTo:
-					for i++; i < len(args); i++ {
-						if args[i] == tr.Tag {
-							break
-						}
+					if i = tagIndex(args, 2, tr.Tag); i < 0 {
+						return tr // a tag of an enclosing tagbody
 					}
 				}
 				// Anything other than ReturnResult or GoTo just continues.
